@@ -36,6 +36,9 @@ type item struct {
 	desc  string
 	bytes []byte
 	dec   func(b []byte) // panics on failure
+	// allOffsets: overwrite every offset even in the quick tier
+	allOffsets bool
+	idx        int // position in the full, sorted corpus (what the progress file refers to)
 }
 
 func decValue(b []byte) { value.ReadValue(gio.NewDataInputX(b)) }
@@ -68,7 +71,7 @@ func corpus(thorough bool) []item {
 	for _, s := range vs {
 		var b refenc.B
 		vals.Ref(&b, s)
-		add(item{"value", s.String(), b, decValue})
+		add(item{"value", s.String(), b, decValue, false, 0})
 	}
 	// packs: both bases and every single deviation
 	packs.Discover()
@@ -89,7 +92,7 @@ func corpus(thorough bool) []item {
 				if _, _, err := packs.Decode(tt, b); err != nil {
 					panic(err)
 				}
-			}})
+			}, false, 0})
 		})
 	}
 	// steps
@@ -108,7 +111,7 @@ func corpus(thorough bool) []item {
 				defer func() { recover() }()
 				out := gio.NewDataOutputX()
 				step.WriteStep(out, o)
-				add(item{"step:" + rt.Name(), fmt.Sprintf("base%d", base), append([]byte{}, out.ToByteArray()...), decStep})
+				add(item{"step:" + rt.Name(), fmt.Sprintf("base%d", base), append([]byte{}, out.ToByteArray()...), decStep, false, 0})
 			}()
 		}
 	}
@@ -120,14 +123,14 @@ func corpus(thorough bool) []item {
 			t.Fields = value.NewMapValue()
 			t.Fields.PutString("f", "v")
 		}
-		add(item{"txrecord", fmt.Sprintf("base%d", base), append([]byte{}, t.ToBytes()...), decTx})
+		add(item{"txrecord", fmt.Sprintf("base%d", base), append([]byte{}, t.ToBytes()...), decTx, false, 0})
 		for _, s := range []service.Service{service.NewWasService(), service.NewAppService(), service.NewWasService2()} {
 			if base == 1 {
 				fillTypical(s)
 			}
 			out := gio.NewDataOutputX()
 			service.ToBytes(s, out)
-			add(item{"service", fmt.Sprintf("%T base%d", s, base), append([]byte{}, out.ToByteArray()...), decSvc})
+			add(item{"service", fmt.Sprintf("%T base%d", s, base), append([]byte{}, out.ToByteArray()...), decSvc, false, 0})
 		}
 	}
 	// udp packs at one version per family
@@ -152,7 +155,7 @@ func corpus(thorough bool) []item {
 				func() {
 					defer func() { recover() }()
 					b := append([]byte{}, udp.ToBytesPack(o)...)
-					add(item{fmt.Sprintf("udp:%s:%s", rt.Name(), fam(ver)), fmt.Sprintf("v%d base%d", ver, base), b, func(b []byte) { udp.ToPack(tag, ver, b) }})
+					add(item{fmt.Sprintf("udp:%s:%s", rt.Name(), fam(ver)), fmt.Sprintf("v%d base%d", ver, base), b, func(b []byte) { udp.ToPack(tag, ver, b) }, false, 0})
 				}()
 			}
 		}
@@ -374,7 +377,7 @@ func hostile(c *evid.Ctx, items []item, w *shard.W, maxOff int) {
 		fmt.Sscanf(r, "%d,%d,%d", &resItem, &resOff, &resPat)
 	}
 	for i := range items {
-		if i%w.N != w.I || i < resItem {
+		if i%w.N != w.I || items[i].idx < resItem {
 			continue
 		}
 		it := &items[i]
@@ -383,7 +386,7 @@ func hostile(c *evid.Ctx, items []item, w *shard.W, maxOff int) {
 			continue
 		}
 		lim := n
-		if maxOff > 0 && lim > maxOff {
+		if maxOff > 0 && lim > maxOff && !it.allOffsets {
 			lim = maxOff
 		}
 		patNo := 0
@@ -392,10 +395,10 @@ func hostile(c *evid.Ctx, items []item, w *shard.W, maxOff int) {
 			if off+len(pat) > n {
 				return
 			}
-			if i == resItem && (off < resOff || off == resOff && patNo <= resPat) {
+			if it.idx == resItem && (off < resOff || off == resOff && patNo <= resPat) {
 				return // resuming after a case that killed the previous worker
 			}
-			pr.note(i, off, patNo)
+			pr.note(it.idx, off, patNo)
 			buf = append(buf[:0], it.bytes...)
 			copy(buf[off:], pat)
 			before := allocNow(sample)
@@ -523,6 +526,9 @@ func clip(b []byte) []byte {
 func Run(c *evid.Ctx) {
 	items := corpus(c.Thorough())
 	sort.SliceStable(items, func(i, j int) bool { return items[i].kind < items[j].kind })
+	for i := range items {
+		items[i].idx = i
+	}
 	maxOff := 48
 	if c.Thorough() {
 		maxOff = 0
@@ -531,10 +537,24 @@ func Run(c *evid.Ctx) {
 		// hostile pass: one representative subset in the quick tier
 		sub := items
 		if !c.Thorough() {
+			// quick: per kind, the longest encoding of at most 1 KiB with every offset overwritten
+			// (the all-typical object reaches the count fields deep inside), plus two more at the
+			// first offsets
 			sub = nil
+			longest := map[string]int{}
+			for i, it := range items {
+				if len(it.bytes) <= 1024 {
+					if j, ok := longest[it.kind]; !ok || len(it.bytes) > len(items[j].bytes) {
+						longest[it.kind] = i
+					}
+				}
+			}
 			per := map[string]int{}
-			for _, it := range items {
-				if per[it.kind] < 3 {
+			for i, it := range items {
+				if j, ok := longest[it.kind]; ok && j == i {
+					it.allOffsets = true
+					sub = append(sub, it)
+				} else if per[it.kind] < 2 {
 					per[it.kind]++
 					sub = append(sub, it)
 				}
@@ -560,6 +580,6 @@ func Run(c *evid.Ctx) {
 	c.Assume("the allocation bound tolerates 1 MiB of slack: a 16-bit count can pre-allocate a few hundred KiB, which is bounded by the width of the field; what is flagged is allocation driven by 24/32/64-bit counts")
 	c.Assume("in-process hostile lengths stop at the 16 Mi scale (a 2 GiB make costs seconds once spans are recycled); 2^31-scale lengths reach ReadBytes only, which now checks the request against the buffered input before allocating")
 	if !c.Thorough() {
-		c.NotExhaustive("quick tier: hostile overwrites at offsets < 48 of three encodings per kind; the thorough tier overwrites every offset of every corpus encoding")
+		c.NotExhaustive("quick tier: hostile overwrites at every offset of the longest (<= 1 KiB) encoding of each kind and at offsets < 48 of two more; the thorough tier overwrites every offset of every corpus encoding")
 	}
 }
